@@ -46,5 +46,17 @@ Proof.
   rewrite no_reachable_write in H. destruct H.
 Qed.
 
+Theorem no_reachable_order_leak : reachable_order_leaks = [].
+Proof. vm_compute. reflexivity. Qed.
+
+Theorem no_order_leak f line what :
+  Reachable f -> ~ In (f, line, what) order_sites.
+Proof.
+  intros Hr Hin.
+  assert (In (f, line, what) reachable_order_leaks).
+  { unfold reachable_order_leaks. apply filter_In. split; [exact Hin|]. cbn [fst]. apply mem_nat_In, reach_complete, Hr. }
+  rewrite no_reachable_order_leak in H. destruct H.
+Qed.
+
 Theorem clock_only_in_ack_and_html_header : clock_sites_ok = true.
 Proof. vm_compute. reflexivity. Qed.
